@@ -149,11 +149,12 @@ let parse_op (w : string list) : op =
   | ["xfer"; s; a; m] -> XXfer (side s, zi a, zi m)
   | _ -> failwith "unknown-command"
 
-let state = ref init_sys
+let state = ref (init_sys true)
 
 let handle (w : string list) : string =
   match w with
-  | ["reset"] -> state := init_sys; "reset"
+  | ["reset"; "old"] -> state := init_sys true; "reset"     (* DataLinkConnection.enqueue closes in every state *)
+  | ["reset"; "new"] -> state := init_sys false; "reset"    (* ... queues only the FRMR in state ESTABLISHED (fixes/c07-7) *)
   | ["name_valid"; n] -> if name_valid (bytes_of_hex n) then "true" else "false"
   | _ ->
     let o = parse_op w in
